@@ -296,8 +296,16 @@ func genQual(r *core.RNG) qualSpec {
 				ls = append(ls, words[r.Intn(len(words))])
 			case 1:
 				ls = append(ls, "x")
+			case 2:
+				if len(ls) > 0 && r.Chance(1, 2) {
+					// a line that itself starts with blanks: fewer than, as many as
+					// and more than the indent continuation lines are written with
+					ls = append(ls, strings.Repeat(" ", []int{1, 20, 21, 22, 42, 43}[r.Intn(6)])+words[r.Intn(len(words))])
+					break
+				}
+				fallthrough
 			default:
-				ls = append(ls, genText(r, 2, 9))
+				ls = append(ls, genQuotedText(r, 2, 9))
 			}
 		}
 		return qualSpec{n, strings.Join(ls, "\n")}
